@@ -490,7 +490,9 @@ def targeted_setop_family():
         filters = {"none": [], "null-test": [Filter(C("w." + cols[-1]) == None)],  # noqa: E711
                    "null-test-first": [Filter(C("w.a") == None)],  # noqa: E711
                    "not-null": [Filter(C("w.a") != None)],  # noqa: E711
-                   "left-col": [Filter(C(f"{tn}.a") > 0)], "left-col-or-null": [Filter((C(f"{tn}.a") > 0) | (C("w.a") == None))]}  # noqa: E711
+                   "left-col": [Filter(C(f"{tn}.a") > 0)], "left-col-or-null": [Filter((C(f"{tn}.a") > 0) | (C("w.a") == None))],  # noqa: E711
+                   "null-test-and-left-col": [Filter((C("w." + cols[-1]) == None) & (C(f"{tn}.a") > 0))],  # noqa: E711
+                   "null-tests-all-and-left-col": [Filter(E("bin", "&&", E("bin", "&&", C("w.a") == None, C("w." + cols[-1]) == None), C(f"{tn}.a") > 0))]}  # noqa: E711
         for side in ("left", "inner"):
             for dist in ("", "before", "after"):
                 for fname, flt in filters.items():
